@@ -80,6 +80,9 @@ func (v *c12) step(x *Ctx, s *St, op Op, post *pf.GameState) string {
 		case "Bet":
 			next = strconv.FormatInt(inc, 10)
 		case "Raise", "Allin":
+			if op.Kind == "Raise" && op.Arg == pre.Status.CurrentWager {
+				break // Raise(level == wager to match) is the engine's alias for Call: not a raise (it may complete a wager below the big blind)
+			}
 			if inc >= refR {
 				next = strconv.FormatInt(inc, 10)
 			}
